@@ -3,8 +3,10 @@
 LINK engine, byzantine raw client.  Every connection-layer message type
 (80-100), well-formed and with random payloads, is sent at every point of a
 scripted pre-authentication history: before the service request, after it,
-after a failed, a partially successful and a probe request, and between an
-interactive INFO_REQUEST and its response.
+after a failed, a partially successful and a probe request, between an
+interactive INFO_REQUEST and its response, and inside the window of a re-key
+the server started before authentication (after its KEXINIT, before the
+client's).
 Oracle: the application is never consulted about channels, port forwarding or
 global requests and no channel exists before a success; GLOBAL_REQUEST is
 answered with REQUEST_FAILURE, CHANNEL_OPEN with OPEN_FAILURE; nothing else is
@@ -20,7 +22,7 @@ from sim.rawclient import RawSession, RecordingServer, sstr
 PROPERTY = "C15"
 LEVEL = "fault_enumeration"
 POINTS = ("before-service-request", "after-service-request", "after-failed-request", "after-partial-success",
-          "after-pk-probe", "between-info-request-and-response")
+          "after-pk-probe", "between-info-request-and-response", "inside-server-started-rekey")
 TYPES = list(range(80, 101))
 CASES = [(pt, t, wf) for pt in POINTS for t in TYPES for wf in (True, False)]
 BUDGET = {"quick": {"runs": len(CASES) * 3, "wall": 50}, "thorough": {"runs": len(CASES) * 120, "wall": 560}}
@@ -80,7 +82,7 @@ def scenario(sim):
     sim.p_switch = (0.02, 0.2)[sim.choose(2)]
     point, t, wf = CASES[sim.seed % len(CASES)]
     server = RecordingServer(sim, weights=(0, 0, 1))
-    s = RawSession(sim, server=server, latency=(0.0, 0.01)[sim.choose(2)])
+    s = RawSession(sim, server=server, latency=0.1 if point == "inside-server-started-rekey" else (0.0, 0.01)[sim.choose(2)])
     key = ssh.key("ed25519_1")
     desc = {"point": point, "type": t, "well_formed": wf}
     if point != "before-service-request":
@@ -105,6 +107,23 @@ def scenario(sim):
             return q
         server.check_auth_interactive = ask
         s.auth_kbdint("alice"); s.settle(5)
+    rk = None
+    if point == "inside-server-started-rekey":
+        # the server asks for new keys before the client has authenticated; what the client sends now arrives after
+        # the server's KEXINIT went out and before the client's KEXINIT comes in (0.1 s each way)
+        if sim.choose(2):
+            s.auth_password("alice", "wrong"); s.settle(5)
+        rkres = {}
+
+        def do_rekey():
+            try:
+                s.ts.renegotiate_keys()
+                rkres["r"] = "ok"
+            except Exception as e:
+                rkres["r"] = e
+        rk = sim.spawn(do_rekey, "server-rekey")
+        sim.sleep(0.02)
+        sim.probe("messages_sent_into_server_rekey_window")
     msgs = [wellformed(sim, t) if wf else bytes([t]) + sim.payload.randbytes((0, 1, 3, 4, 9, 40)[sim.choose(6)])]
     for _ in range(sim.choose(4)):
         t2 = TYPES[sim.choose(len(TYPES))]
@@ -116,6 +135,8 @@ def scenario(sim):
         sim.fault("pre_auth_connection_message")
         if sim.choose(2):
             s.settle(3)
+    if rk is not None:
+        sim.join_task(rk, 30)
     s.settle(10)
     desc["messages"] = [m[0] for m in msgs]
     # --- oracle
